@@ -170,18 +170,21 @@ Proof. exact (dollar_inside_segment_is_plain _). Qed.
 Print Assumptions C11_dollar_inside_segment_is_plain.
 
 (* ------------------------------------------------------------------ *)
-(* Changed describes the update (C08 direction): replaying the recorded
-   changes — Put for a value, Unset for Missing — in the order of recording on
-   the ORIGINAL document yields the resulting document.  Partial: updates
-   without $rename; values without the Missing marker; recorded $push index
-   segments within the model's array-extension limit (10^8). *)
-Theorem C11_apply_changes_faithful_partial : forall d q u up fs now d' sorted,
-  no_rename u -> has_missing (VDoc u) = false ->
+(* Changed describes the update (C08 direction): for EVERY update that Apply
+   accepts (all 15 operators, positional paths included), replaying the
+   recorded changes — Put for a value, Unset for Missing — in the order of
+   recording (a permutation of the path-sorted list Apply returns) on the
+   ORIGINAL document yields the resulting document.  Side conditions: the
+   update holds no Missing marker (true of every BSON value), and recorded
+   $push index segments stay within the model's array-extension limit (an
+   artefact of Model/Access.v's put, not of lungo). *)
+Theorem C11_apply_changes_faithful : forall d q u up fs now d' sorted,
+  has_missing (VDoc u) = false ->
   Apply d q u up fs now = Ok (d', sorted) ->
   exists ch, Permutation ch sorted /\ sorted = sort_changes ch /\
              (small_changes ch -> replay ch d = Ok d').
 Proof. exact (apply_changes_faithful _). Qed.
-Print Assumptions C11_apply_changes_faithful_partial.
+Print Assumptions C11_apply_changes_faithful.
 
 (* the $push fix (/repo f8e1696): the recorded changes of a $push, applied as
    $sets to the original document, reproduce the new document *)
